@@ -166,6 +166,7 @@ impl LanguageServer for Backend {
             self.uri_cache.insert(file_path.clone(), uri.clone());
 
             info!("Analyzing file: {:?}", file_path);
+            self.fixture_db.document_opened(&file_path);
             self.fixture_db
                 .analyze_file(file_path.clone(), &params.text_document.text);
 
@@ -206,6 +207,7 @@ impl LanguageServer for Backend {
         info!("did_close: {:?}", uri);
         if let Some(file_path) = self.uri_to_path(&uri) {
             // Clean up cached data for this file to prevent unbounded memory growth
+            self.fixture_db.document_closed(&file_path);
             self.fixture_db.cleanup_file_cache(&file_path);
             // Clean up URI cache entry
             self.uri_cache.remove(&file_path);
